@@ -10,6 +10,7 @@ import OmplModel.Props.C14RS
 import OmplModel.Props.C14D
 import OmplModel.Props.C14O
 import OmplModel.Props.C14W
+import OmplModel.Props.C14V
 /-!
 # C14 — Dubins curves: the reported path is a shortest candidate, reaches the goal, and `interpolate` drives it
 
